@@ -107,6 +107,9 @@ def gen(t, tier):
         sc['coverage'] = [fx, fy, fx + t.randint(1, 6) / 8.0 + t.pick([0, 1 / 32.0]), fy + t.randint(1, 6) / 8.0]
     else:
         sc['coverage'] = None
+    if sc['coverage'] and t.chance(0.4):
+        # upper/right edges just beyond a tile border of a coarse level (resolved against the grid at run time)
+        sc['coverage'] = ['edge', t.choice(1000), t.choice(1000), t.choice(1000), t.choice(25)]
     return sc
 
 
@@ -229,7 +232,24 @@ def run(sc, tape):
         times_of = {}
         gbb = grid.bbox
         cov = None
-        if sc['coverage']:
+        if sc['coverage'] and sc['coverage'][0] == 'edge':
+            _, s0, s1, s2, s3 = sc['coverage']
+            L = s0 % max(1, nlev - 1)
+            rL, rf = grid.resolutions[L], grid.resolutions[nlev - 1]
+            nx, ny = grid.grid_sizes[L]
+            tw, th = grid.tile_size[0] * rL, grid.tile_size[1] * rL
+            bx = gbb[0] + (1 + s1 % max(1, nx - 1)) * tw if nx > 1 else (gbb[0] + gbb[2]) / 2.0
+            if ny > 1:
+                by = gbb[1] + (1 + s2 % max(1, ny - 1)) * th if grid.origin not in ('ul', 'nw') else \
+                    gbb[3] - (1 + s2 % max(1, ny - 1)) * th
+            else:
+                by = (gbb[1] + gbb[3]) / 2.0
+            offs = [1.5 * rf, 3 * rf, rL / 20.0, rL / 12.0, -1.5 * rf]
+            cov = [max(gbb[0], bx - 0.3 * (gbb[2] - gbb[0])), max(gbb[1], by - 0.25 * (gbb[3] - gbb[1])),
+                   min(gbb[2], bx + offs[s3 % 5]), min(gbb[3], by + offs[(s3 // 5) % 5])]
+            if not (cov[2] - cov[0] > 4 * rf and cov[3] - cov[1] > 4 * rf):
+                cov = [gbb[0], gbb[1], (gbb[0] + gbb[2]) / 2.0, (gbb[1] + gbb[3]) / 2.0]
+        elif sc['coverage']:
             fx0, fy0, fx1, fy1 = sc['coverage']
             cov = [gbb[0] + fx0 * (gbb[2] - gbb[0]), gbb[1] + fy0 * (gbb[3] - gbb[1]),
                    gbb[0] + fx1 * (gbb[2] - gbb[0]), gbb[1] + fy1 * (gbb[3] - gbb[1])]
@@ -355,7 +375,9 @@ def run(sc, tape):
                     # mapproxy's grid arithmetic works with a sub-pixel tolerance: overlaps (or gaps) thinner than one
                     # pixel of that level are neither demanded nor forbidden
                     eps = grid.resolutions[coord[2]]
-                    if ow > eps and oh > eps:
+                    # removal is demanded once the coverage reaches a pixel of the finest selected level into the meta tile
+                    eps_in = grid.resolutions[min(max(sel), nlev - 1)] if sel else eps
+                    if ow > eps_in and oh > eps_in:
                         covc = 'in'
                     elif ow < -eps or oh < -eps:
                         covc = 'out'
